@@ -464,6 +464,12 @@ fn machine(host: &mut Host, name: &str, op: &Value) -> Result<Option<Value>, Str
             }
             configure_device(&mut fresh, &cfg)?;
             add_expansions(&mut fresh, &cfg)?;
+            // host-side keyboard options that are configuration, not saved state, are supplied again
+            if let Some(v) = cfg.get("kb_repeat").and_then(|x| x.as_bool()) {
+                if let Some(kb) = fresh.keyboard.as_mut() {
+                    kb.set_repeat_enabled(v);
+                }
+            }
             let res = fresh.load_snapshot(std::path::Path::new(&path));
             let _ = std::fs::remove_file(&path);
             match res {
